@@ -36,10 +36,39 @@ WS = ' \t\n\r\x0b\x0c'
 
 def strip_env_name_padding(src):
     """`\\begin{ name }` -> `\\begin{name}` (and the same for \\end): what
-    TexExpr.__init__'s name.strip() does to the serialised text."""
-    def fix(m):
-        return m.group(1) + '{' + m.group(2).strip(WS) + '}'
-    return re.sub(r'(\\(?:begin|end)[ \t]*\n?[ \t]*)\{([^{}\\$%\[\]]*)\}', fix, src)
+    TexExpr.__init__'s name.strip() does to the serialised text.  The name
+    group is located with the library's own tokenizer (brace matching on
+    tokens, so comments and escaped braces are respected); an unclosed name
+    group extends to the end of the input."""
+    import impl
+    try:
+        toks = impl.tokens_of(src)
+    except Exception:      # noqa
+        return src
+    edits, i, covered = [], 0, -1
+    while i < len(toks) - 1:
+        if toks[i][2] == 'Escape' and toks[i + 1][0] in ('begin', 'end') and toks[i][1] >= covered:
+            j = i + 2
+            if j < len(toks) and toks[j][2] == 'MergedSpacer':
+                j += 1
+            if j < len(toks) and toks[j][2] == 'GroupBegin':
+                depth, k = 1, j + 1
+                while k < len(toks) and depth > 0:
+                    if toks[k][2] == 'GroupBegin':
+                        depth += 1
+                    elif toks[k][2] == 'GroupEnd':
+                        depth -= 1
+                    k += 1
+                start = toks[j][1] + 1
+                end = toks[k - 1][1] if depth == 0 else len(src)
+                content = src[start:end]
+                if content.strip() != content:
+                    edits.append((start, end, content.strip()))
+                    covered = end
+        i += 1
+    for start, end, rep in reversed(edits):
+        src = src[:start] + rep + src[end:]
+    return src
 
 
 def cls_env_name_padding(f):
@@ -57,6 +86,11 @@ def cls_env_name_padding(f):
         return False
     if f.kind == 'tolerant-output-not-input-plus-closers':
         names = set(re.findall(r'\\begin\{([^{}]*)\}', out))
+        try:
+            import impl
+            names |= op.env_names(impl.parse(src, 1))
+        except Exception:     # noqa
+            pass
         return op.only_closers_inserted(norm, out, names) is None
     if f.kind in ('characters-not-conserved',):
         return op.removed_arg_space_alignment(norm, out) is None
